@@ -10,7 +10,8 @@ CONFIG = dict(
           "individuals with objective values from 0, halves, negatives, 1e6- and 1e-6-scale, kinetic energies incl. 0 and "
           "1e4, buffer 0 / 1e-3 / up to 110, 0-2 further populations below) with the product objective steered to the "
           "accept, reject, buffer-assisted (decomposition) and random regimes, scripted generator words incl. the "
-          "extremes 0 / 2^64-1, loss rates 0..0.999, and equal-twin reactants; the draws the component received are read "
+          "extremes 0 / 2^64-1, loss rates 0..0.999, equal-twin reactants, on-wall products identical to the reactant, "
+          "remembered bests better than the current individual; the draws the component received are read "
           "back by replaying the same script (witness) and checked for legality; (2) *-malformed: wrong population sizes, "
           "missing reactant, short stack, short molecule list, same reactant twice, loss rate >= 1; (3) dcrit / scrit: the "
           "two criteria on prepared stacks incl. the [copy, selection, population] shape the CRO template produces; "
@@ -29,7 +30,8 @@ CONFIG = dict(
         "same solution and same objective",
         "RefCell borrows inside the components are not modelled (C02)"],
     assumptions=["theorems are in exact (ordered-field) arithmetic; the implementation is compared with the compiled "
-                 "model bit for bit (same IEEE operations in the same order) and against the property with 1e-9 relative tolerance"],
+                 "model exactly for transported data (individuals, counters, bests, stack) and up to 1e-9 relative to the total energy for "
+                 "kinetic energies and buffer (association order / E*(1-d) vs E-E*d are not part of the property), and against the property with 1e-9 relative tolerance"],
     timeout_quick=600,
 )
 CONFIG.update(
